@@ -446,7 +446,9 @@ class Gen:
             else:
                 en = [k for k in range(st[0], hi) if re.search(kv['region_end'], lines[k])]
             if not en:
-                raise Undecided(f'{fid}: region end /{kv.get("region_end", kv.get("region_end_excl"))}/ not found')
+                # the region's end cannot be located any more: like a lost start, the wrapper is kept by contract only (stubbed)
+                region_lost = region_lost or f'{fid}: region end /{kv.get("region_end", kv.get("region_end_excl"))}/ not found'
+                en = [st[0]]
             a, b = st[0], en[0]
             start_idx = sum(len(l) + 1 for l in lines[:a])
             end_idx = sum(len(l) + 1 for l in lines[:b + 1])
